@@ -260,9 +260,11 @@ class ImplicitFuncComp(ImplicitComponent):
             outvals = tuple(self._outputs.values())
             tangents = self._get_tangents(outvals, 'rev', coloring)
             if coloring is not None:
-                j = [np.asarray(a).reshape((a.shape[0], shape_to_len(a.shape[1:])))
-                     for a in jac_reverse(self._apply_nonlinear_func_jax, argnums,
-                                          tangents)(*invals)]
+                # (a scalar variable with a single color comes back as a 0-d array)
+                j = [a.reshape((a.shape[0], shape_to_len(a.shape[1:])))
+                     for a in (np.atleast_1d(np.asarray(a)) for a in
+                               jac_reverse(self._apply_nonlinear_func_jax, argnums,
+                                           tangents)(*invals))]
                 j = coloring._expand_jac(np.hstack(self._reorder_col_chunks(j)), 'rev').toarray()
             else:
                 j = []
@@ -279,9 +281,11 @@ class ImplicitFuncComp(ImplicitComponent):
                 tangents = self._get_tangents(invals, 'fwd', coloring, argnums,
                                               trans=self._get_jac2func_inds(self._inputs,
                                                                             self._outputs))
-                j = [np.asarray(a).reshape((shape_to_len(a.shape[:-1]), a.shape[-1]))
-                     for a in jac_forward(self._apply_nonlinear_func_jax, argnums,
-                                          tangents)(*invals)]
+                # (a scalar variable with a single color comes back as a 0-d array)
+                j = [a.reshape((shape_to_len(a.shape[:-1]), a.shape[-1]))
+                     for a in (np.atleast_1d(np.asarray(a)) for a in
+                               jac_forward(self._apply_nonlinear_func_jax, argnums,
+                                           tangents)(*invals))]
                 j = coloring._expand_jac(np.vstack(j), 'fwd').toarray()
             else:
                 tangents = self._get_tangents(invals, 'fwd', coloring, argnums)
